@@ -594,6 +594,8 @@ package cache
 //@ func (*Failover).refreshStale
 //@   props C03 C06 C18
 //@   requires ctx != nil && f.backend != nil
+//@   requires [C02.refresh.prov.need] prov(bytes(key), value)
+//@   ensures [C02.refresh.write.prov] prov(bytes(key), arg("ReadWriter.Write", 1, 3))
 //@   ensures [C06.refresh.write] calls("ReadWriter.Write") == 1 && bytes(arg("ReadWriter.Write", 1, 2)) == bytes(key)
 //@       && arg("ReadWriter.Write", 1, 3) == value
 //@   ensures [C06.refresh.ttl] ttlOf(arg("ReadWriter.Write", 1, 1)) == f.config.UpdateTTL
@@ -635,6 +637,7 @@ package cache
 
 //@ func (*Failover).doBuild
 //@   props C01 C02 C03 C05 C06 C18
+//@   replay failover
 //@   requires ctx != nil && buildFunc != nil && failoverOK(f) && errorsOnly(f)
 //@   requires [C01.tok.need] tok(bytes(key))
 //@   requires abs(ttlOf(ctx)) <= 1577880000000000000
@@ -653,6 +656,8 @@ package cache
 //@   ensures [C03.build.ok.result] berr == nil && werr == nil ==> result0 == bval && result1 == nil
 //@   ensures [C03.build.ok.writefail] berr == nil && werr != nil ==> result0 == nil && result1 == werr
 //@   ensures [C02.build.prov] (result1 == nil ==> prov(kb, result0)) && (result1 != nil ==> errProv(kb, result1))
+//@   ensures [C02.build.write.prov] (berr != nil ==> calls("ReadWriter.Write") == 0)
+//@       && (calls("ReadWriter.Write") <= 1) && (calls("ReadWriter.Write") == 1 ==> prov(kb, arg("ReadWriter.Write", 1, 3)))
 //@   ensures [C18.build.metric] f.stat != nil ==> metric(MetricBuild) == old(metric(MetricBuild)) + 1.0
 //@       && metric(MetricFailed) == old(metric(MetricFailed)) + (berr != nil ? 1.0 : 0.0)
 //@       && metric(MetricRefreshed) == old(metric(MetricRefreshed)) && metric(MetricHit) == old(metric(MetricHit))
@@ -761,6 +766,168 @@ package cache
 //@   ensures [C01.builder.via.doBuild] calls(buildFunc) == calls(doBuild) && calls(doBuild) <= 1
 //@   ensures [C05.gate.failed] built || bg ==> calls(recentlyFailed) == 1 && res(recentlyFailed, 1, 0) == nil
 //@   ensures [C05.gate.syncread] f.config.SyncRead ==> lockedAt(1, cnt("ReadWriter.Read")) == old(cnt("ReadWriter.Read"))
+//@   ensures [C05.waiter.nobuild] !owner && !hit ==> !built && !bg
+//@   ensures [C06.get.ctx] built ==> arg(doBuild, 1, 1) == ctx && bytes(arg(doBuild, 1, 2)) == kb
+//@   ensures [C06.get.bgctx] bg ==> dyntype(res(ctxSync, 1, 0), detachedContext) && payload(res(ctxSync, 1, 0), detachedContext).parent == ctx
+//@   ensures [C18.get.counts] f.stat != nil ==> metric(MetricBuild) == old(metric(MetricBuild)) + real(calls(doBuild))
+//@       && metric(MetricRefreshed) == old(metric(MetricRefreshed)) + real(calls(refreshStale))
+
+// ---------------------------------------------------------------------------------------------------
+// failover_go1.18.go: the generic FailoverOf[V], verified once for an uninterpreted V. Its failure cache is a
+// ShardedMapOf[error]: objects of that instantiation live in the layout of the generic type (the error stored
+// as V is the pairing of its two leaves: paired(err) / unpair(x, error)); the calls f.Errors.Read / Write use the
+// contracts of the generic methods, proved for every V under C07.
+// The generic Get differs from Failover.Get: any backend error that is not an expiry error counts as "absent"
+// (there is no backend-fault row), and results that accompany an error are the zero V or the stale value.
+// ---------------------------------------------------------------------------------------------------
+
+//@ def errsOKOf(f) := f.config.FailedUpdateTTL > -1 ==> f.Errors != nil && f.Errors.shardedMapOf != nil && repOK(f.Errors.shardedMapOf)
+//@     && f.Errors.shardedMapOf.t.Config.ExpirationJitter <= 1.0 && f.Errors.shardedMapOf.t.Config.TimeToLive != 0
+//@     && abs(f.Errors.shardedMapOf.t.Config.TimeToLive) <= 1577880000000000000
+//@     && f.Errors.shardedMapOf.t.expirationsSet >= 0 && f.Errors.shardedMapOf.t.expirationsSet < 4611686018427387904
+//@ def failoverOKOf(f) := f.backend != nil && errsOKOf(f)
+//@ def errorsOnlyOf(f) := f.config.FailedUpdateTTL > -1 ==>
+//@     (forall h uint64 :: hasH(f.Errors.shardedMapOf, h) ==> unpair(ent(f.Errors.shardedMapOf, h).V, error) != nil
+//@        && errProv(bytes(ent(f.Errors.shardedMapOf, h).K), unpair(ent(f.Errors.shardedMapOf, h).V, error)))
+
+//@ frame backendreadof := G|cnt|ReadWriterOf.Read G|arg|ReadWriterOf.Read|* G|res|ReadWriterOf.Read|*
+//@ frame backendwriteof := G|cnt|ReadWriterOf.Write G|arg|ReadWriterOf.Write|* G|res|ReadWriterOf.Write|*
+//@ frame errcacheof := new:H|TraitEntryOf[V]|* new:E|byte|* M|map[uint64]*TraitEntryOf[V]|* H|Trait|.expirationsSet H|TraitOf[V]|* H|TraitEntryOf[V]|.C G|rand G|cnt|rand
+
+// freshEnough: the stale value carried by an expiry error, if it is acceptable (MaxStaleness).
+//@ func (*FailoverOf[V]).freshEnough
+//@   props C03 C02
+//@   let exp := err != nil && isExpiredErr(err)
+//@   let acceptable := exp && (f.config.MaxStaleness == 0 || satsub(now(1), expiredAt(err)) < f.config.MaxStaleness)
+//@   ensures [C03.fe.acceptable] acceptable ==> result0 == expiredValue(err) && result1
+//@   ensures [C03.fe.not] !acceptable ==> result0 == nil && !result1
+//@   ensures [C03.fe.clock] clockReads() == ((exp && f.config.MaxStaleness != 0) ? 1 : 0)
+//@   modifies @clock new:H|ErrWithExpiredItemOf[V]|*
+
+//@ func (*FailoverOf[V]).ctxSync
+//@   like (*Failover).ctxSync
+
+//@ func (*FailoverOf[V]).refreshStale
+//@   like (*Failover).refreshStale subst ReadWriter=ReadWriterOf backendwrite=backendwriteof value=val
+
+//@ func (*FailoverOf[V]).recentlyFailed
+//@   props C03 C05 C02
+//@   requires ctx != nil && errsOKOf(f) && errorsOnlyOf(f)
+//@   let on := f.config.FailedUpdateTTL > -1
+//@   let kb := bytes(key)
+//@   let em := f.Errors.shardedMapOf
+//@   let cached := on && !skipRead(ctx) && old(present(em, kb)) && !isExpiredAt(old(ent(em, hash(kb))), now(1))
+//@   ensures [C05.rf.off] !on ==> result == nil && clockReads() == 0 && noMetric()
+//@   ensures [C05.rf.hit] cached ==> result == unpair(old(ent(em, hash(kb))).V, error) && result != nil
+//@   ensures [C05.rf.miss] on && !cached ==> result == nil
+//@   ensures [C02.rf.prov] result != nil ==> errProv(kb, result)
+//@   ensures [C05.rf.frame] on ==> mapKept(em) && (forall p *TraitEntryOf[V] :: old(allocated(p)) ==> entryKept(p))
+//@   ensures [C18.rf.metrics] metric(MetricBuild) == old(metric(MetricBuild)) && metric(MetricRefreshed) == old(metric(MetricRefreshed))
+//@       && metric(MetricFailed) == old(metric(MetricFailed))
+//@   modifies H|TraitEntryOf[V]|.C @stat @log @clock
+
+//@ func (*FailoverOf[V]).doBuild
+//@   props C01 C02 C03 C05 C06 C18
+//@   replay failover
+//@   requires ctx != nil && buildFunc != nil && failoverOKOf(f) && errorsOnlyOf(f)
+//@   requires [C01.tok.need] tok(bytes(key))
+//@   requires abs(ttlOf(ctx)) <= 1577880000000000000
+//@   requires f.config.FailedUpdateTTL > -1 ==> f.Errors.shardedMapOf.t.Stat == f.stat
+//@   let kb := old(bytes(key))
+//@   let bval := res(buildFunc, 1, 0)
+//@   let berr := res(buildFunc, 1, 1)
+//@   let werr := res("ReadWriterOf.Write", 1, 0)
+//@   let em := f.Errors.shardedMapOf
+//@   ensures [C01.build.once] calls(buildFunc) == 1 && arg(buildFunc, 1, 1) == ctx
+//@   ensures [C03.build.fail] berr != nil ==> result0 == nil && result1 == berr && calls("ReadWriterOf.Write") == 0
+//@   ensures [C05.build.fail.cached] berr != nil && f.config.FailedUpdateTTL > -1 ==>
+//@       present(em, kb) && ent(em, hash(kb)).V == paired(berr)
+//@   ensures [C03.build.ok.write] berr == nil ==> calls("ReadWriterOf.Write") == 1 && arg("ReadWriterOf.Write", 1, 1) == ctx
+//@       && bytes(arg("ReadWriterOf.Write", 1, 2)) == kb && arg("ReadWriterOf.Write", 1, 3) == bval
+//@   ensures [C03.build.ok.result] berr == nil && werr == nil ==> result0 == bval && result1 == nil
+//@   ensures [C03.build.ok.writefail] berr == nil && werr != nil ==> result0 == nil && result1 == werr
+//@   ensures [C02.build.prov] (result1 == nil ==> prov(kb, result0)) && (result1 != nil ==> errProv(kb, result1))
+//@   ensures [C02.build.write.prov] (berr != nil ==> calls("ReadWriterOf.Write") == 0)
+//@       && (calls("ReadWriterOf.Write") <= 1) && (calls("ReadWriterOf.Write") == 1 ==> prov(kb, arg("ReadWriterOf.Write", 1, 3)))
+//@   ensures [C18.build.metric] f.stat != nil ==> metric(MetricBuild) == old(metric(MetricBuild)) + 1.0
+//@       && metric(MetricFailed) == old(metric(MetricFailed)) + (berr != nil ? 1.0 : 0.0)
+//@       && metric(MetricRefreshed) == old(metric(MetricRefreshed)) && metric(MetricHit) == old(metric(MetricHit))
+//@       && metric(MetricMiss) == old(metric(MetricMiss)) && metric(MetricExpired) == old(metric(MetricExpired))
+//@       && metric(MetricDelete) == old(metric(MetricDelete))
+//@   ensures [C18.build.nostat] f.stat == nil ==> noMetric()
+//@   ensures [C05.build.errs.repok] (f.config.FailedUpdateTTL > -1 ==> repOK(f.Errors.shardedMapOf)) && errorsOnlyOf(f)
+//@   modifies @builder @backendwriteof @stat @log @clock @errcacheof H|time.Duration|*
+
+//@ func (*FailoverOf[V]).waitForValue
+//@   like (*Failover).waitForValue subst kl=klOf[V]
+
+//@ type FailoverOf[V]
+//@   props C01 C04 C16
+//@   interference
+//@   guardedby keyLocks lock
+//@   tokenmap keyLocks
+//@   nocallout lock
+//@   mapinsert keyLocks assume klKey(value) == key
+//@   lockinv lock [C01.lockinv] forall k string :: has(self.keyLocks, k) ==>
+//@       self.keyLocks[k] != nil && klKey(self.keyLocks[k]) == k && !closed(self.keyLocks[k].lock) && self.keyLocks[k].lock != nil
+//@   lockinv lock [C01.lockinv.chans] forall k string :: forall j string :: has(self.keyLocks, k) && has(self.keyLocks, j) && k != j ==>
+//@       self.keyLocks[k].lock != self.keyLocks[j].lock
+
+//@ type klOf[V]
+//@   props C02 C16
+//@   chanpub lock [C02.pub] self.err != nil ? errProv(klKey(self), self.err) : prov(klKey(self), self.val)
+//@   published lock val err
+
+//@ func (*FailoverOf[V]).Get$2
+//@   like (*Failover).Get$2 subst Failover=FailoverOf[V] failoverOK=failoverOKOf errorsOnly=errorsOnlyOf shardedMap=shardedMapOf
+
+//@ func (*FailoverOf[V]).Get
+//@   props C01 C02 C03 C04 C05 C06 C18
+//@   replay failover api:=generic
+//@   requires ctx != nil && buildFunc != nil && failoverOKOf(f) && errorsOnlyOf(f) && f.keyLocks != nil
+//@   requires abs(ttlOf(ctx)) <= 1577880000000000000
+//@   requires f.config.FailedUpdateTTL > -1 ==> f.Errors.shardedMapOf.t.Stat == f.stat
+//@   let kb := old(bytes(key))
+//@   let owner := lockedAt(1, !has(f.keyLocks, kb))
+//@   let rerr := res("ReadWriterOf.Read", 1, 1)
+//@   let rval := res("ReadWriterOf.Read", 1, 0)
+//@   let hit := rerr == nil
+//@   let stale := rerr != nil && isExpiredErr(rerr)
+//@   let acceptable := calls(freshEnough) == 1 && res(freshEnough, 1, 1)
+//@   let toostale := stale && !acceptable
+//@   let absent := rerr != nil && !stale
+//@   let sv := expiredValue(rerr)
+//@   ensures [C03.classify] !hit ==> calls(freshEnough) == 1 && arg(freshEnough, 1, 1) == rerr
+//@   let refreshFailed := calls(refreshStale) == 1 && res(refreshStale, 1, 0) != nil
+//@   let failed := calls(recentlyFailed) == 1 && res(recentlyFailed, 1, 0) != nil
+//@   let built := calls(doBuild) == 1
+//@   let bg := calls("go:(*FailoverOf[V]).Get$2") == 1
+//@   let bval := res(doBuild, 1, 0)
+//@   let berr := res(doBuild, 1, 1)
+//@   ensures [C03.read.once] calls("ReadWriterOf.Read") == 1
+//@   ensures [C03.hit] hit ==> result0 == rval && result1 == nil && !built && !bg && calls(recentlyFailed) == 0 && calls(refreshStale) == 0
+//@   ensures [C03.refresh] owner && acceptable <==> calls(refreshStale) == 1
+//@   ensures [C03.refresh.failed] owner && refreshFailed ==> result1 == res(refreshStale, 1, 0) && !built && !bg
+//@   ensures [C03.failcached] owner && !hit && !refreshFailed && failed ==> result1 == res(recentlyFailed, 1, 0) && !built && !bg
+//@   ensures [C03.sync.build] owner && (absent || toostale) && !failed ==> built && !bg
+//@   ensures [C03.sync.ok] owner && (absent || toostale) && !failed && berr == nil ==> result0 == bval && result1 == nil
+//@   ensures [C03.absent.fail] owner && absent && !failed && berr != nil ==> result1 == berr
+//@   ensures [C03.acc.bg] owner && acceptable && !refreshFailed && !failed && !f.config.SyncUpdate ==>
+//@       bg && !built && result0 == sv && result1 == nil
+//@   ensures [C03.acc.sync] owner && acceptable && !refreshFailed && !failed && f.config.SyncUpdate ==> built && !bg
+//@   ensures [C03.acc.sync.ok] owner && acceptable && !refreshFailed && !failed && f.config.SyncUpdate && berr == nil ==>
+//@       result0 == bval && result1 == nil
+//@   ensures [C03.acc.sync.fail.soft] owner && acceptable && !refreshFailed && !failed && f.config.SyncUpdate && berr != nil
+//@       && !f.config.FailHard ==> result0 == sv && result1 == nil
+//@   ensures [C03.acc.sync.fail.hard] owner && acceptable && !refreshFailed && !failed && f.config.SyncUpdate && berr != nil
+//@       && f.config.FailHard ==> result1 == berr
+//@   ensures [C03.toostale.fail.soft] owner && toostale && !failed && berr != nil && !f.config.FailHard ==>
+//@       result0 == sv && result1 == nil
+//@   ensures [C03.toostale.fail.hard] owner && toostale && !failed && berr != nil && f.config.FailHard ==> result1 == berr
+//@   ensures [C02.prov] (result1 == nil ==> prov(kb, result0)) && (result1 != nil ==> errProv(kb, result1))
+//@   ensures [C01.builder.via.doBuild] calls(buildFunc) == calls(doBuild) && calls(doBuild) <= 1
+//@   ensures [C05.gate.failed] built || bg ==> calls(recentlyFailed) == 1 && res(recentlyFailed, 1, 0) == nil
+//@   ensures [C05.gate.syncread] f.config.SyncRead ==> lockedAt(1, cnt("ReadWriterOf.Read")) == old(cnt("ReadWriterOf.Read"))
 //@   ensures [C05.waiter.nobuild] !owner && !hit ==> !built && !bg
 //@   ensures [C06.get.ctx] built ==> arg(doBuild, 1, 1) == ctx && bytes(arg(doBuild, 1, 2)) == kb
 //@   ensures [C06.get.bgctx] bg ==> dyntype(res(ctxSync, 1, 0), detachedContext) && payload(res(ctxSync, 1, 0), detachedContext).parent == ctx
